@@ -60,3 +60,9 @@ Print Assumptions C05_inrange_is_representability.
 Theorem C05_analyzer_complete_names : forall p, rule_names p = true -> off_names p = [].
 Proof. exact names_complete_thm. Qed.
 Print Assumptions C05_analyzer_complete_names.
+
+(* the six scraped checks are needed: with a check switched off the pinned decision function lets through a concrete
+   input that it refuses with the check on (and that the rule refuses) *)
+Theorem C05_scraped_checks_needed : checks_needed.
+Proof. exact checks_needed_thm. Qed.
+Print Assumptions C05_scraped_checks_needed.
